@@ -30,6 +30,39 @@ fn gen_history(r: &mut Rng, cfg: &SysCfg, ntypes: u64, len: usize, crashes: bool
         ops.push(Op::Ls);
         return ops;
     }
+    // failing-flush shape: a rotation whose flush fails (its rows stay in the retained passive
+    // buffer), reads, further rotations that flush normally next to it, reads at every step
+    if !crashes && r.chance(1, 4) {
+        let cap = cfg.capacity();
+        let mut store_n = |ops: &mut Vec<Op>, r: &mut Rng, n: usize| {
+            for _ in 0..n {
+                k += 1;
+                ops.push(Op::S { k, ctx: r.below(nctx), ty: r.below(ntypes) });
+            }
+        };
+        let pre = r.below(3) as usize;
+        store_n(&mut ops, r, pre * cap);
+        if pre > 0 && r.chance(1, 2) { ops.push(Op::Run); }
+        store_n(&mut ops, r, cap);
+        if pre > 0 && r.chance(1, 2) { ops.push(Op::Run); } // nothing parked at its start: FF is a no-op
+        ops.push(Op::Ff);
+        ops.push(Op::R);
+        for _ in 0..(1 + r.below(3)) {
+            let extra = r.below(cap as u64 + 1) as usize;
+            store_n(&mut ops, r, cap + extra);
+            for _ in 0..r.below(7) {
+                ops.push(Op::Adv);
+                if r.chance(1, 2) { ops.push(Op::R); }
+            }
+            if r.chance(1, 3) { ops.push(Op::Ff); }
+            if r.chance(1, 4) { ops.push(Op::F); }
+            ops.push(Op::R);
+        }
+        ops.push(Op::Run);
+        ops.push(Op::R);
+        ops.push(Op::Ls);
+        return ops;
+    }
     for _ in 0..len {
         let x = r.below(100);
         let op = if x < 50 {
@@ -45,6 +78,8 @@ fn gen_history(r: &mut Rng, cfg: &SysCfg, ntypes: u64, len: usize, crashes: bool
             Op::F
         } else if crashes {
             if r.chance(1, 4) { Op::D } else { Op::X }
+        } else if r.chance(1, 2) {
+            Op::Ff
         } else {
             Op::Ls
         };
@@ -70,6 +105,9 @@ fn witnesses() -> Vec<(SysCfg, u64, Vec<Op>)> {
          (1..=11).map(s).chain([Op::R, Op::Run, Op::R]).collect()),
         // C03-inflight-hides-published: a second rotation in flight (no files yet) next to a published segment
         (c2.clone(), 1, vec![s(1), s(2), Op::Run, s(3), s(4), Op::R, Op::R, Op::R, Op::R, Op::R, Op::R, Op::Run, Op::R]),
+        // a flush that fails: its rows are served from the retained passive buffer, also after the
+        // next rotation has been flushed and nothing is in flight any more
+        (c2.clone(), 1, vec![s(1), s(2), Op::Ff, Op::R, s(3), s(4), Op::R, Op::Run, Op::R, Op::Ls, s(5), Op::R]),
     ]
 }
 
@@ -197,6 +235,7 @@ fn main() {
             }
             if *op == Op::Adv { stage_seen.insert("adv"); }
         }
+        st.tally_n("flushes_failed", ex.failed_flushes);
         drop(ex);
         let _ = std::fs::remove_dir_all(&root);
         st.tally(&format!("cap={}", cfg.capacity()));
@@ -204,6 +243,7 @@ fn main() {
         st.tally_n("stores", applied.len() as u64);
         st.tally_n("reads", ops.iter().filter(|o| **o == Op::R).count() as u64);
         st.tally_n("adv", ops.iter().filter(|o| **o == Op::Adv).count() as u64);
+        st.tally_n("ff_ops", ops.iter().filter(|o| **o == Op::Ff).count() as u64);
         st.case(&history_line(&cfg, ntypes, &ops), &obs.join(" ; "), applied.len() >= cfg.capacity());
         match shape_fail.or(fail) {
             None => st.oracle_ok(),
